@@ -152,18 +152,18 @@ builtin.module {
     // CHECK-NEXT: %{{.*}} = riscv.slt %lhsi32, %rhsi32 : (!riscv.reg, !riscv.reg) -> !riscv.reg
     %cmpi3 = arith.cmpi sle, %lhsi32, %rhsi32 : i32
     %cmpi3_2 = builtin.unrealized_conversion_cast %cmpi3 : i1 to !riscv.reg
-    // CHECK-NEXT: %{{.*}} = riscv.slt %lhsi32, %rhsi32 : (!riscv.reg, !riscv.reg) -> !riscv.reg
+    // CHECK-NEXT: %{{.*}} = riscv.slt %rhsi32, %lhsi32 : (!riscv.reg, !riscv.reg) -> !riscv.reg
     // CHECK-NEXT: %{{.*}} = riscv.xori %cmpi3, 1 : (!riscv.reg) -> !riscv.reg
     %cmpi4 = arith.cmpi sgt, %lhsi32, %rhsi32 : i32
     %cmpi4_1 = builtin.unrealized_conversion_cast %cmpi4 : i1 to !riscv.reg
-    // CHECK-NEXT: %{{.*}} = riscv.sltu %lhsi32, %rhsi32 : (!riscv.reg, !riscv.reg) -> !riscv.reg
+    // CHECK-NEXT: %{{.*}} = riscv.slt %rhsi32, %lhsi32 : (!riscv.reg, !riscv.reg) -> !riscv.reg
     %cmpi5 = arith.cmpi sge, %lhsi32, %rhsi32 : i32
     %cmpi5_2 = builtin.unrealized_conversion_cast %cmpi5 : i1 to !riscv.reg
-    // CHECK-NEXT: %{{.*}} = riscv.sltu %lhsi32, %rhsi32 : (!riscv.reg, !riscv.reg) -> !riscv.reg
+    // CHECK-NEXT: %{{.*}} = riscv.slt %lhsi32, %rhsi32 : (!riscv.reg, !riscv.reg) -> !riscv.reg
     // CHECK-NEXT: %{{.*}} = riscv.xori %cmpi5, 1 : (!riscv.reg) -> !riscv.reg
     %cmpi6 = arith.cmpi ult, %lhsi32, %rhsi32 : i32
     %cmpi6_1 = builtin.unrealized_conversion_cast %cmpi6 : i1 to !riscv.reg
-    // CHECK-NEXT: %{{.*}} = riscv.sltu %rhsi32, %lhsi32 : (!riscv.reg, !riscv.reg) -> !riscv.reg
+    // CHECK-NEXT: %{{.*}} = riscv.sltu %lhsi32, %rhsi32 : (!riscv.reg, !riscv.reg) -> !riscv.reg
     %cmpi7 = arith.cmpi ule, %lhsi32, %rhsi32 : i32
     %cmpi7_2 = builtin.unrealized_conversion_cast %cmpi7 : i1 to !riscv.reg
     // CHECK-NEXT: %{{.*}} = riscv.sltu %rhsi32, %lhsi32 : (!riscv.reg, !riscv.reg) -> !riscv.reg
